@@ -30,7 +30,7 @@ fn run_line(prop: &str, args: &[&str]) -> String {
         "C01" | "C12" | "C02" | "C11" if args[0] == "sys" => sysloop::op_sys(args[1].parse().unwrap(), args[2].parse().unwrap(), args[3].parse().unwrap(), args[4]),
         "C08" if args[0] == "resp" || args[0] == "accept" => tr19::run19(args),
         "C08" | "C09" | "C10" | "C11" | "C20" | "C01" => hand::run(args),
-        "C07" if args[0] == "st" || args[0] == "snd" => conn::run(args),
+        "C07" if args[0] == "st" || args[0] == "snd" || args[0] == "tcps" => conn::run(args),
         "C07" => wire::run(args),
         "C12" => sess::run12(args),
         "C15" if args[0] == "dec" => bcodec::run16(args),
